@@ -31,7 +31,48 @@ func runC10(c *Ctx) {
 	}
 	cfg := TraceConfig{Inline: inl}
 	// signature of a function: the set of encoding primitives it (transitively) uses, with widths
-	prim := func(e *Event) string {
+	// sliceLen: number of bytes of a slice expression over a local array (buf[:], buf[:2], buf[1:3]); -1 if unknown
+	sliceLen := func(a *Sym) int64 {
+		if a == nil || a.Kind != KOp || a.Name != "slice" || len(a.Args) < 3 {
+			return -1
+		}
+		r := a.Args[0].root()
+		if r == nil || r.Kind != KAlloc || r.Typ == nil {
+			return -1
+		}
+		p, ok := r.Typ.(*types.Pointer)
+		if !ok {
+			return -1
+		}
+		arr, ok := p.Elem().Underlying().(*types.Array)
+		if !ok {
+			return -1
+		}
+		lo, hi := int64(0), arr.Len()
+		if a.Args[1].Name != "none" {
+			v, isC := a.Args[1].intConst()
+			if !isC {
+				return -1
+			}
+			lo = v
+		}
+		if a.Args[2].Name != "none" {
+			v, isC := a.Args[2].intConst()
+			if !isC {
+				return -1
+			}
+			hi = v
+		}
+		return hi - lo
+	}
+	isTransfer := func(n string) bool {
+		switch n {
+		case "(*bytes.Buffer).Write", "(*bytes.Buffer).Read", "io.ReadFull", "io.ReadAtLeast", "(io.Reader).Read", "(io.Writer).Write":
+			return true
+		}
+		return false
+	}
+	prim := func(t *Trace, e *Event) string {
 		if e.Kind != EvCall {
 			return ""
 		}
@@ -41,15 +82,28 @@ func runC10(c *Ctx) {
 		case strings.HasPrefix(n, "(encoding/binary."):
 			short = strings.TrimPrefix(n, "(encoding/binary.")
 			short = strings.Replace(short, ")", "", 1)
-			// width of the array behind the slice argument
+			// width tag: the number of bytes of the scratch array that travel to / from the buffer on this path
+			// (the slice handed to Write / Read / io.ReadFull); the slice handed to the binary call if none does
 			for _, a := range e.Args {
-				if r := a.root(); r != nil && r.Kind == KAlloc && r.Typ != nil {
-					if p, ok := r.Typ.(*types.Pointer); ok {
-						if arr, ok := p.Elem().Underlying().(*types.Array); ok {
-							short += fmt.Sprintf("[%d]", arr.Len())
+				r := a.root()
+				if r == nil || r.Kind != KAlloc || sliceLen(a) < 0 {
+					continue
+				}
+				w := int64(-1)
+				for _, y := range t.Events {
+					if y.Kind != EvCall || !isTransfer(y.callName()) {
+						continue
+					}
+					for _, ya := range y.Args {
+						if yr := ya.root(); yr != nil && yr.Key() == r.Key() && sliceLen(ya) >= 0 {
+							w = sliceLen(ya)
 						}
 					}
 				}
+				if w < 0 {
+					w = sliceLen(a)
+				}
+				short += fmt.Sprintf("[%d]", w)
 			}
 		case strings.HasPrefix(n, "encoding/binary."):
 			short = strings.TrimPrefix(n, "encoding/binary.")
@@ -69,7 +123,7 @@ func runC10(c *Ctx) {
 		ps, cs := map[string]bool{}, map[string]bool{}
 		for _, t := range traces {
 			for _, e := range t.Events {
-				if s := prim(e); s != "" {
+				if s := prim(t, e); s != "" {
 					ps[s] = true
 				}
 				for _, a := range e.Args {
